@@ -244,7 +244,7 @@ def add_cover_of_array(rng, world):
     (such a range node distributes a supplied value onto a multi-cell node)."""
     arrs = [c for c in world['cells'] if 'arr' in c]
     if not arrs or not rng.chance(.6):
-        return
+        return None
     idx = Index(world)
     a = rng.pick(arrs)
     b, s, r1, c1, r2, c2 = cell_rect(a)
@@ -280,6 +280,7 @@ def add_cover_of_array(rng, world):
     world['cells'].append({'at': list(at), 'f': ['f', rng.pick(
         ['SUM', 'MAX', 'COUNT']), rect]})
     world['books'][b][s] = [max(h, at[2] + 1), max(w, at[3] + 1)]
+    return rect
 
 
 def generate(seed, tier):
@@ -304,7 +305,7 @@ def generate(seed, tier):
     if sw.chance(.35):
         from ..world import add_sparse_range
         add_sparse_range(Rng(seed, 'sparse'), world)
-    add_cover_of_array(Rng(seed, 'cover'), world)
+    cover = add_cover_of_array(Rng(seed, 'cover'), world)
     if sw.chance(.08):
         # whole rows (last motif: the node records the window)
         from ..world import add_whole_refs
@@ -341,6 +342,27 @@ def generate(seed, tier):
                                      blanks=orng.chance(.3)),
                 'outputs': gen_targets(orng, world, orng.randrange(1, 4),
                                        False) if orng.chance(.3) else None}
+    if cover and breakers is None and orng.chance(.6):
+        # the rectangle around an array block is overridden by the observed
+        # calculation (and, through the re-use below, by earlier ones with
+        # other values): the block is one multi-cell node behind the range
+        pos = set(rect_cells(cover))
+        keep = []
+        for tg, v in observed['inputs']:
+            if tg[0] == 'cell':
+                tp = set(cell_positions(world['cells'][tg[1]]))
+            elif tg[0] == 'blank':
+                tp = {tuple(tg[1])}
+            else:
+                tp = set(rect_cells(world['names'][tg[1]]['t']
+                                    if tg[0] == 'name' else tg[1]))
+            if not (tp & pos):
+                keep.append([tg, v])
+        tg = ['range', cover]
+        observed['inputs'] = keep + [[tg, regen_value(orng, world, tg)]]
+        if not ops or not any(op['op'] in ('calc', 'calc_fault')
+                              for op in ops):
+            ops.append({'op': 'calc', 'inputs': [], 'outputs': None})
     if breakers:
         # circular world: the observed calculation overrides (at least) one
         # cell of every cycle - as constants those cells leave no cycle
